@@ -81,7 +81,14 @@ pub fn run(ctx: &Ctx) -> PropReport {
                 let links: Vec<(u8, u8)> = all_links(&sc).into_iter().filter(|(a, b)| *a < 100 && *b < 100).collect();
                 if !links.is_empty() {
                     let (from, to) = links[idx(l, links.len())];
-                    sc.ops.push(Op::Outage { tick: 0, from, to, len_ms: len });
+                    // half: the whole link is dead (the handshake itself is late); half: only the INPUT packets are
+                    // lost - handshake, acknowledgements and reports get through, so the sender is a synchronized, live
+                    // peer from whom not a single input has been received yet while the others are predicted and corrected
+                    if l % 2 == 0 {
+                        sc.ops.push(Op::Outage { tick: 0, from, to, len_ms: len });
+                    } else {
+                        sc.ops.push(Op::DropClass { tick: 0, from, to, class: crate::sim::wire::Class::Input as u8, len_ms: len });
+                    }
                     sc.notify_ms = sc.notify_ms.max(20_000);
                     sc.timeout_ms = sc.timeout_ms.max(40_000);
                     sc.ops.sort_by_key(|o| o.tick());
